@@ -11,6 +11,8 @@ mod c08;
 mod c14;
 #[cfg(kani)]
 mod c18;
+#[cfg(kani)]
+mod c21;
 
 /// runner self-test: a harness that must FAIL and replay natively (never part of a property)
 #[cfg(kani)]
